@@ -52,7 +52,8 @@ ASSUMPTIONS = [
     "two threads never execute the same generator at once (CPython forbids it): successive next() calls on one "
     "iterator may come from different threads",
     "the oracle is differential (pristine solitary run of the same spec through the same entry point)",
-    "on nondeterministic environments a partial sequence is checked as a sub-multiset of the solitary result",
+    "on nondeterministic environments a partial sequence is checked as a sub-multiset of the solitary result; where the "
+    "solitary run ends in an exception only the exception class is compared",
 ]
 COMPONENTS = {
     "real": ["whole library: lexer, parser, environment, query, segments, selectors, filter evaluator, built-in functions, regex"],
@@ -119,6 +120,9 @@ def _pool(rng, tier: str):
             spec["setup"] = [[rng.choice(H.FNAMES), H.gen_fspec(rng)]]
         if rng.random() < 0.15:
             spec["attrs"] = {"nondeterministic": True}
+            if rng.random() < 0.4:
+                # ... with a small limit too: some evaluations must raise, whatever else is going on
+                spec["attrs"]["max_recursion_depth"] = rng.choice((2, 3, 4))
         elif rng.random() < 0.15:
             spec["attrs"] = {"max_recursion_depth": rng.choice((2, 3, 4))}
         setup.append({"op": "new_env", "id": f"e{i}", "spec": copy.deepcopy(spec)})
